@@ -12,6 +12,11 @@ RULE = ('exhaustive: prior file {absent, valid, corrupt} x all data-URL scripts 
         'corrupt body, garbage, missing}, served by the in-process `responses` mock; thorough adds '
         'length-4 scripts, bodies of 0 B / 1 B / > 1 MiB, checksum files with and without a trailing '
         'file name. file name, non-hex and non-UTF-8 checksum files, size probes (HEAD) answered in seven ways; a part of the scripted space is also served by a real HTTP server on the loopback interface with Content-Encoding: gzip and with the data URL answering by a redirect. '
+        'Whitespace layouts of the checksum file: a sixth of the scripted space is run once more with every 200 answer '
+        'of the checksum URL laid out as <lead><md5><separator+name><trail> (lead: none / space(s) / TAB / blank line; '
+        'separator: two spaces, one space, space+*, TAB, none; trail: none / LF / CRLF / space+LF / two LF), and a part of '
+        'those with "checksum unavailable" served as a 200 answer holding an empty or whitespace-only text; the texts '
+        'really served are parsed by the Lean model of `text.split()[0]` (firstField / parseSum) for the prediction. '
         'non-trivial = at least one data request was made or the pre-check ran')
 ASSUMPTIONS = ['requests / streaming / hashlib.md5 are outside the model (bodies and checksums are tokens, '
                'hash = identity in the driver; the theorems hold for every hash function)',
@@ -31,14 +36,55 @@ def _bodies(case):
     return {1: b'good-body-' * 300, 2: b'corrupt!!!' * 300}
 
 
+def _md5s(case):
+    md5 = {k: hashlib.md5(v).hexdigest() for k, v in _bodies(case).items()}
+    md5[9] = 'f' * 32
+    return md5
+
+
+# whitespace layouts of a checksum file: <lead><md5><separator + name><trail>
+LEADS = ['', ' ', '\t', '\n', '  ', '\r\n', ' \t ']
+MIDS = ['  data.bin', '', ' *data.bin', '\tdata.bin', ' data.bin', '  sub dir/data.bin']
+TRAILS = ['\n', '', '\r\n', ' \n', '\n\n']
+BLANKS = ['', ' \n', '\n', ' ', '\t\r\n']
+
+
+def _sum_answer(case, s, md5):
+    """What the checksum URL answers for script token `s`: None = 404, else (headers, text or bytes). One function for
+    the mock, the loopback server and the query to the Lean model (which parses the very text that is served)."""
+    if s == 0:
+        if case.get('blank') is not None:
+            # "checksum unavailable" as a 200 answer that holds no field at all
+            return ({}, case['blank'])
+        return None
+    # the checksum file as md5sum writes it, bare, or bare with a trailing newline
+    if s == 9 and case.get('wrongfmt') == 'nonhex':
+        # a published checksum that is not even hexadecimal (another tool's output format): a mismatch
+        return ({}, 'MD5(data.bin)= ' + md5[1] + '\n')
+    if case.get('layout') is not None:
+        lead, mid, trail = case['layout']
+        return ({}, lead + md5[s] + mid + trail)
+    if case.get('sumfmt') == 'latin1_name':
+        # md5sum line whose file name is not valid UTF-8
+        return ({'Content-Type': 'text/plain'}, md5[s].encode() + b'  donn\xe9es.bin\n')
+    tail = {'name': '  data.bin\n', 'bare': '', 'bare_nl': '\n', 'bare_crlf': '\r\n'}[
+        case.get('sumfmt') or ('name' if case.get('with_name', True) else 'bare')]
+    return ({}, md5[s] + tail)
+
+
+def _sumfmt(case):
+    if case.get('layout') is not None:
+        return 'layout'
+    return case.get('sumfmt') or ('name' if case.get('with_name', True) else 'bare')
+
+
 def impl(case):
     import responses
     import requests
     from phylib.io import datasets as DS
     from phylib.utils import event as EV
     bodies = _bodies(case)
-    md5 = {k: hashlib.md5(v).hexdigest() for k, v in bodies.items()}
-    md5[9] = 'f' * 32
+    md5 = _md5s(case)
     ds, ss = list(case['ds']), list(case['ss'])
     log = []
 
@@ -57,18 +103,10 @@ def impl(case):
     def sum_cb(request):
         log.append('sum')
         s = ss.pop(0) if ss else 0
-        if s == 0:
+        a = _sum_answer(case, s, md5)
+        if a is None:
             return (404, {}, 'not found')
-        # the checksum file as md5sum writes it, bare, or bare with a trailing newline
-        if s == 9 and case.get('wrongfmt') == 'nonhex':
-            # a published checksum that is not even hexadecimal (another tool's output format): a mismatch
-            return (200, {}, 'MD5(data.bin)= ' + md5[1] + '\n')
-        if case.get('sumfmt') == 'latin1_name':
-            # md5sum line whose file name is not valid UTF-8
-            return (200, {'Content-Type': 'text/plain'}, md5[s].encode() + b'  donn\xe9es.bin\n')
-        tail = {'name': '  data.bin\n', 'bare': '', 'bare_nl': '\n', 'bare_crlf': '\r\n'}[
-            case.get('sumfmt') or ('name' if case.get('with_name', True) else 'bare')]
-        return (200, {}, md5[s] + tail)
+        return (200, a[0], a[1])
     if case.get('server'):
         return _impl_server(case, bodies, md5, data_cb, sum_cb, log)
     with C.scratch_dir() as d:
@@ -214,6 +252,11 @@ def judge(case, impl_res, ans):
         return 'SPEC: real code raised %s (%s) at %s (neither HTTPError nor RuntimeError)' % (
             impl_res['raised'], impl_res['msg'], impl_res['where'])
     ok = impl_res['ok']
+    if m.get('ss') != list(case['ss']):
+        # the Lean parse (firstField / parseSum) of the texts that were served disagrees with what the generator meant
+        # them to publish: my layouts or my model of str.split() are wrong, nothing about the real code
+        return 'MACHINERY: the served checksum texts parse to %s in the model, the generator meant %s' % (
+            m.get('ss'), case['ss'])
     # the property itself, on the real outcome
     returned = ok['result'] in ('skipped', 'done')
     sums = [i for i, r in enumerate(ok['log']) if r == 'sum']
@@ -240,7 +283,18 @@ def judge(case, impl_res, ans):
 
 
 def model_query(case, impl_res):
-    return dict(p=PID, op='download', prior=case['prior'], ds=case['ds'], ss=case['ss'])
+    # the model is given what the checksum URL really sends (the same `_sum_answer` the servers use) and parses it itself
+    md5 = _md5s(case)
+    answers = []
+    for s in case['ss']:
+        a = _sum_answer(case, s, md5)
+        if a is None:
+            answers.append(None)
+        else:
+            t = a[1]
+            answers.append([ord(c) for c in (t.decode('latin-1') if isinstance(t, bytes) else t)])
+    return dict(p=PID, op='download', prior=case['prior'], ds=case['ds'], answers=answers,
+                render=[[k, [ord(c) for c in md5[k]]] for k in (1, 2)], other=9)
 
 
 def nontrivial(case):
@@ -257,7 +311,16 @@ def tally(rep, case, impl_res, ans):
     rep.count('transfer_encoding:%s%s' % (case.get('encoding', 'identity'), ' over a loopback HTTP server' + (', data URL redirected' if case.get('redirect') else '') if case.get('server') else ' (in-process mock)'))
     rep.count('size_probe(HEAD):%s' % case.get('head', 'none'))
     rep.count('output_path:%s' % case.get('pathkind', 'path'))
-    rep.count('checksum_file_format:%s' % (case.get('sumfmt') or ('name' if case.get('with_name', True) else 'bare')))
+    rep.count('checksum_file_format:%s' % _sumfmt(case))
+    if case.get('layout') is not None:
+        lead, mid, trail = case['layout']
+        rep.count('checksum_layout_lead:%r' % lead)
+        rep.count('checksum_layout_separator+name:%r' % mid)
+        rep.count('checksum_layout_trail:%r' % trail)
+        if lead and any(x in (1, 2) for x in case['ss']):
+            rep.count('checksum_layout:indented or preceded by a blank line, checksum of a served body')
+    if case.get('blank') is not None and 0 in case['ss']:
+        rep.count('checksum_unavailable_as_blank_200:%r' % case['blank'])
     rep.count('prior:%s' % case['prior'])
     rep.count('body:' + case.get('body', 'normal'))
 
@@ -275,6 +338,15 @@ def shrink(case):
     if case['prior'] is not None:
         c = dict(case); c['prior'] = None
         yield c
+    if case.get('blank') is not None:
+        c = dict(case); c['blank'] = None
+        yield c
+    if case.get('layout') is not None:
+        lay = list(case['layout'])
+        for i in range(3):
+            if lay[i] != '':
+                c = dict(case); c['layout'] = lay[:i] + [''] + lay[i + 1:]
+                yield c
 
 
 def gen(tier, rng):
@@ -282,6 +354,7 @@ def gen(tier, rng):
     L = 3 if q else 4
     HEADS = ['none', 'ok', '403', 'ok_nolen', '501', 'short_len', 'long_len']
     k = 0
+    j = 0
     for prior in (None, 1, 2):
         for ld in range(0, L + 1):
             for ds in itertools.product([1, 2, 0], repeat=ld):
@@ -299,6 +372,16 @@ def gen(tier, rng):
                             yield dict(p=PID, prior=prior, ds=list(ds), ss=list(ss), head=['none', 'ok', '403'][k % 3],
                                        server=True, encoding=['gzip', 'identity'][(k // 18) % 2], redirect=bool((k // 18) % 3 == 1),
                                        sumfmt=['name', 'bare_nl'][(k // 36) % 2])
+                        if k % 6 == 1 and ls > 0:
+                            # the same behaviours with the checksum file in another whitespace layout
+                            j += 1
+                            c = dict(p=PID, prior=prior, ds=list(ds), ss=list(ss), head=HEADS[j % 7],
+                                     layout=[LEADS[j % 7], MIDS[(j // 7) % 6], TRAILS[(j // 42) % 5]],
+                                     blank=BLANKS[(j // 4) % 5] if j % 4 == 3 else None,
+                                     wrongfmt=['hex', 'nonhex'][(j // 3) % 2])
+                            if j % 10 == 9:
+                                c.update(server=True, head=['none', 'ok', '403'][j % 3], encoding='identity')
+                            yield c
                         if not q and ld <= 3:
                             yield dict(p=PID, prior=prior, ds=list(ds), ss=list(ss), head=HEADS[(k + 3) % 7])
     for body in ('empty', 'one', 'big'):
